@@ -117,6 +117,8 @@ impl ByteReader {
             final(self).content() == old(self).content(),
             r.is_ok() ==> (to matches SeekFrom::Start(o) ==> final(self).pos() == o),
             (to matches SeekFrom::Start(o) && o <= old(self).content().len()) ==> r.is_ok(),
+            r.is_ok() ==> (to matches SeekFrom::End(d) ==> final(self).pos() == old(self).content().len() + d && final(self).pos() >= 0),
+            (to matches SeekFrom::End(d) && old(self).content().len() + d >= 0 && d <= 0) ==> r.is_ok(),
     {
         unimplemented!()
     }
@@ -139,6 +141,44 @@ impl ByteReader {
     {
         unimplemented!()
     }
+}
+
+impl ByteReader {
+    /// TRUSTED (OS): the metadata of an open regular file reports its length.
+    #[verifier::external_body]
+    pub fn metadata(&self) -> (r: Result<Metadata>)
+        ensures
+            r.is_ok() ==> r.unwrap().size() == self.content().len() && self.content().len() <= u64::MAX,
+    {
+        unimplemented!()
+    }
+}
+
+#[verifier::external_body]
+pub struct Metadata {
+    _p: core::marker::PhantomData<u8>,
+}
+
+impl Metadata {
+    pub uninterp spec fn size(&self) -> int;
+
+    #[verifier::external_body]
+    pub fn len(&self) -> (r: u64)
+        ensures
+            r == self.size(),
+    {
+        unimplemented!()
+    }
+}
+
+/// TRUSTED (std): u64::from_le_bytes inverts to_le_bytes (the pair is also checked through write_fixed_u64 /
+/// read_fixed_u64 by Kani obligation O-02b).
+#[verifier::external_body]
+pub fn u64_from_le_bytes(b: [u8; 8]) -> (r: u64)
+    ensures
+        forall|v: u64| b@ == #[trigger] le8(v) ==> r == v,
+{
+    u64::from_le_bytes(b)
 }
 
 pub enum SeekFrom {
